@@ -5,12 +5,22 @@ import json, subprocess, sys, os
 ROOT = os.path.dirname(os.path.dirname(os.path.abspath(__file__)))
 
 # property id -> (engine, technique, level text, level note, design ref)
+E1T = 'bounded exhaustive enumeration of grammar trees x inputs (explicit-state style: every enumerated case is evaluated by the reference model and replayed on the implementation through parse() and check())'
+NOTE = 'Trusted: the reference evaluator cvm::sem (no chumsky code) with the pinned conventions of DESIGN.md section 2, the fixed user closures named in the grammar AST, rustc. Every node is .boxed() unless a unit says otherwise. Bounds actually completed are in the evidence file.'
 CLAIMED = {
-    "C01": ("e1-conformance",
-            "bounded exhaustive enumeration of grammar trees x inputs, every case replayed on the implementation and compared with a reference PEG model",
-            "Every combinator tree of class K01 (primitives, sequence, ordered choice, option, look-ahead, map/filter/try_map, groups, choices in tuple/Vec/array form, basic repetition) up to the node bound, on every input over {a,b,c} up to the length bound, through parse() and check(), on &str (ASCII and multi-byte rendering) and &[char]: acceptance, output value and the extent consumed by every sub-parser on the surviving path equal the reference PEG evaluator's. Exhaustive within the bounds stated in the evidence file; nothing is sampled.",
-            "Trusted: the reference evaluator cvm::sem (no chumsky code), the fixed user closures named in the AST, rustc. Every node is .boxed(); the statically typed sub-enumeration is listed separately when present.",
-            "DESIGN.md section 4, C01"),
+    'C01': ("e1-conformance", E1T, "Every combinator tree of class K01 (primitives, sequence, ordered choice, option, look-ahead, map/filter/try_map, groups, choices in tuple/Vec/array form, basic repetition) up to the node bound, on every input over {a,b,c} up to the length bound, on &str (ASCII and multi-byte rendering) and &[char]: acceptance, output value and the extent consumed by every sub-parser on the surviving path equal the reference PEG evaluator's. Exhaustive within the bounds stated in the evidence file; nothing is sampled.", NOTE, 'DESIGN.md section 4, C01'),
+    'C02': ("e1-conformance", E1T, "Every repeated()/separated_by() template: item x separator x all bounds at_least/at_most/exactly in 0..4 (also supplied through configure()) x allow_leading/allow_trailing x every sink (Vec, String, count, bare, enumerate, collect_exactly [_;0..3], foldl, foldr, foldl_with, foldr_with), each followed by a capture of the unconsumed rest, on every input over {a,b,','} up to the length bound: acceptance, item sequence, fold order and the position left behind equal the reference model's. The two documented-contradictory separator corners are counted and skipped. Exhaustive within the bounds stated in the evidence file; nothing is sampled.", NOTE, 'DESIGN.md section 4, C02'),
+    'C03': ("e1-conformance", E1T, "For every grammar of the K01, extended (recovery/validate) and K02 classes and every input up to the bound (which contains every one-token extension of every shorter accepted input): acceptance equals the model's whole-input match; the ParseResult invariants (no output => >=1 error, errors => into_result is Err, error-free => output, has_errors/errors()/output() consistent) hold for parse and check; p.lazy() accepts exactly when the model matches a prefix and returns that prefix's output. Exhaustive within the bounds stated in the evidence file; nothing is sampled.", NOTE, 'DESIGN.md section 4, C03'),
+    'C04': ("e1-conformance", E1T, '(i) check() and parse() agree on acceptance, the complete error list and the final inspector state for every grammar of the K01, K02, K04 (recovery, validation, labels, slices), state and context classes on every input; (ii) every K04 grammar that contains an output-eliding combinator (ignore_then, then_ignore, ignored, to, to_slice, to_span, delimited_by, padded_by, bare repeated/separated_by) gives exactly the same outputs and errors as its value-building rewriting, on every input (differential, no model involved). Exhaustive within the bounds stated in the evidence file; nothing is sampled.', NOTE, 'DESIGN.md section 4, C04'),
+    'C05': ("e1-conformance", E1T, "For every grammar of the extended class (validate emitters and recover_with at every node position, inside choices, repetitions, separators, look-ahead) and of a focused deep emission class, on every input, with a snapshot-checkpoint inspector: when the parse has an output, errors() equals the model's surviving-path emission list in order, every state observation equals the fold over the tokens before it, and the final state equals the whole input. Exhaustive within the bounds stated in the evidence file; nothing is sampled.", NOTE, 'DESIGN.md section 4, C05'),
+    'C06': ("e1-conformance", E1T, "For every grammar of the extended, core, K01 and K02 classes (content comparison skipped for grammars containing not()) and every rejected input, with EmptyErr, Cheap, Simple and Rich: the last error's span equals the model's furthest-failure span (so the three span-carrying types agree), Rich's expected set and custom reason equal the merge at that position, found is the token at the span start, spans are well formed and inside the input, and a failed parse reports at least one error. Exhaustive within the bounds stated in the evidence file; nothing is sampled.", NOTE, 'DESIGN.md section 4, C06'),
+    'C07': ("e1-conformance", E1T, "For every grammar of class K07 (K01 plus to_span, to_slice, map_with span/slice, validate spans, foldl_with/foldr_with) with every node wrapped in a span probe, on &str (ASCII and multi-byte), &[char], Stream and Input::map over tokens with gapped spans: every captured span and slice equals the model's extent for that node (hence nested, ordered, empty for empty matches and between the neighbouring tokens), is well formed, lies on character boundaries, and every slice is a sub-slice of the caller's buffer at the right offset. Exhaustive within the bounds stated in the evidence file; nothing is sampled.", NOTE, 'DESIGN.md section 4, C07'),
+    'C08': ("e1-conformance", E1T, "For every grammar of the extended class with recover_with(via_parser | skip_until | skip_then_retry_until) at every node position and nesting, and of a bracket class with nested_delimiters, on every input: acceptance, output (fallback values are tagged), extents, the complete list of reported errors (recovered error = the then-pending primary error, exactly one per recovery) and the primary error on failure equal the model's. Exhaustive within the bounds stated in the evidence file; nothing is sampled.", NOTE, 'DESIGN.md section 4, C08'),
+    'C10': ("e1-conformance", E1T, 'The same grammars (K01 and extended classes) on the same token sequences supplied as &str (ASCII, multi-byte), &[char], Stream, BoxedStream, Input::map (contiguous and gapped spans), &[u8], IoInput, with_context and map_span: acceptance, outputs, extents and error positions all equal the one reference model after the documented re-basing of spans. Exhaustive within the bounds stated in the evidence file; nothing is sampled.', NOTE, 'DESIGN.md section 4, C10'),
+    'C15': ("e1-conformance", E1T, "For every grammar of the context class (with_ctx, then_with_ctx, ignore_with_ctx, map_ctx, just(..).configure(seq from ctx), repeated().configure(exactly from ctx), try_configure with erroring configs, inside sequences, choices, options and repetitions) with a context probe at every node, on every input: acceptance, outputs and every observed context equal the model's nearest-enclosing-provider semantics. Exhaustive within the bounds stated in the evidence file; nothing is sampled.", NOTE, 'DESIGN.md section 4, C15'),
+    'C17': ("e1-conformance", E1T, "(i) Differential: every core-class grammar with <= 3 nodes x every non-empty subset of its nodes wrapped in labelled / labelled().as_context() / a span-preserving map_err gives the same acceptance, outputs, number of errors and error spans as the undecorated grammar on every input. (ii) Content: for every extended-class grammar the expected set (label in place of expectations at the first token, inner expectations kept further in), as_context contexts and map_err tags of the reported errors equal the model's. Exhaustive within the bounds stated in the evidence file; nothing is sampled.", NOTE, 'DESIGN.md section 4, C17'),
+    'C18': ("e1-conformance", E1T, 'For every grammar of the state class (extended class plus select and with_state) with a state probe at every node, on &str, &[char] and Stream, with a snapshot-checkpoint inspector: every observation equals the fold over exactly the tokens before that position, the final state of a successful parse equals the fold over the whole input, with_state starts from a fresh copy on every invocation and leaves the outer state untouched. Exhaustive within the bounds stated in the evidence file; nothing is sampled.', NOTE, 'DESIGN.md section 4, C18'),
+    'C20': ("e1-conformance", E1T, 'For every grammar of the extended and K01 classes with EmptyErr, Cheap, Simple and Rich on every input: parse and check return (no panic inside the library, caught per case; process deaths attributed per case), and a result without output carries at least one error. Exhaustive within the bounds stated in the evidence file; nothing is sampled.', NOTE, 'DESIGN.md section 4, C20'),
 }
 
 NOT_YET = {
